@@ -1,4 +1,4 @@
-import Ruint.Model.DivCore
+import Ruint.Model.DivRecip
 /-!
 Proof obligation tied to the GENERATED table `Ruint/Gen/RecipTable.lean` (extracted from
 `src/algorithms/div/reciprocal.rs` on every run): everything the error analysis of `reciprocal_mg10`
